@@ -6,9 +6,10 @@ set -u
 ID=$1; PATCH=$2; TIER=$3; shift 3
 WT=/tmp/mv/$ID
 mkdir -p /tmp/mv
-git -C /repo worktree remove --force "$WT" >/dev/null 2>&1
-git -C /repo worktree add -q "$WT" HEAD || exit 3
-trap 'git -C /repo worktree remove --force "$WT" >/dev/null 2>&1; rm -rf /verif/build/alt-_tmp_mv_'"$ID" EXIT
+# git worktree commands of parallel runs must not interleave.
+flock /tmp/mv/.wtlock git -C /repo worktree remove --force "$WT" >/dev/null 2>&1
+flock /tmp/mv/.wtlock git -C /repo worktree add -q "$WT" HEAD || exit 3
+trap 'flock /tmp/mv/.wtlock git -C /repo worktree remove --force "$WT" >/dev/null 2>&1; rm -rf /verif/build/alt-_tmp_mv_'"$ID" EXIT
 if ! git -C "$WT" apply "$PATCH"; then echo "MUTANT $ID: patch does not apply"; exit 3; fi
 if /verif/tools/baseline.sh "$WT" >/tmp/mv/$ID.baseline 2>&1; then echo "MUTANT $ID: suite passes"; else echo "MUTANT $ID: SUITE FAILS (does not qualify)"; tail -5 /tmp/mv/$ID.baseline; exit 4; fi
 for P in "$@"; do
